@@ -60,7 +60,7 @@ def generate(ctx):
     for s in STR_BYTES + [rand_bytes(rng, 16) for _ in range(80 if quick else 500)]:
         rt(PN(T_OBJECT, ch=[PN(T_STRING, vs=s, key=s[-5:])]), 'string', fmts=(rng.choice([0, 1]),))
     for t in last_token_trees()[:: (5 if quick else 1)]: rt(t, 'last-token', fmts=(rng.choice([0, 1]),))
-    for depth, kind in ((10, 0), (30, T_ARRAY)) + (() if quick else ((200, T_ARRAY), (60, T_OBJECT), (999, T_ARRAY), (1001, T_ARRAY))):
+    for depth, kind in ((10, 0), (30, T_ARRAY), (999, T_ARRAY), (1000, T_ARRAY)) + (() if quick else ((200, T_ARRAY), (60, T_OBJECT), (1001, T_ARRAY))):
         rt(nested(depth, kind), 'nested', fmts=(0,) if depth > 100 else (0, 1))
     # shallow but WIDE trees: more empty / small containers than the parser's nesting limit (its depth counter must come back after each)
     if ctx.get('seed_index', 0) == 0:
